@@ -186,13 +186,34 @@ LineLinB(c) ==
                               IN Row3(x, 500, 100 * Km) \o <<k>>]
   IN B(<<"line-linear", c>>, <<"linear-in-distance", c.type>>, doc, << Q(<<>>, OpTerm(c.op, want, D), rows, Dec(1, -8)) >>)
 
+(*************************** smooth composition (slab, fault): documented anchor values ***************************)
+(* the documentation defines the fraction at the top / bottom of the slab layer and at the centre / sides of the fault, with a smooth
+   transition in between: the anchors are asserted to 1e-3, everything in between only to lie between the two fractions *)
+SmoothCase == [type : {"subducting plate", "fault"}, fr : {<<Dec(1, 0), Dec(0, 0)>>, <<Dec(8, -1), Dec(2, -1)>>, <<Dec(25, -2), Dec(1, 0)>>}, op : {"replace", "add"}]
+SmoothB(c) ==
+  LET span == 60 * Km
+      m == IF c.type = "fault"
+           THEN    ("model" :> "smooth") @@ ("compositions" :> <<3>>) @@ ("min distance fault center" :> 0) @@ ("side distance fault center" :> span)
+                @@ ("center fractions" :> <<c.fr[1]>>) @@ ("side fractions" :> <<c.fr[2]>>) @@ ("operation" :> c.op)
+           ELSE    ("model" :> "smooth") @@ ("compositions" :> <<3>>) @@ ("min distance slab top" :> 0) @@ ("max distance slab top" :> span)
+                @@ ("top fractions" :> <<c.fr[1]>>) @@ ("bottom fractions" :> <<c.fr[2]>>) @@ ("operation" :> c.op)
+      doc == WorldOf(<<LineFeat(c.type, <<>>, <<m>>)>>)
+      row(k, v) == <<(500 - k) * Km, 500 * Km, HM - 100 * Km, 100 * Km, v>>
+  IN B(<<"smooth", c>>, <<"smooth-composition", c.type, IF c.fr[2] = Dec(0, 0) THEN "zero-far-fraction" ELSE "non-zero-far-fraction">>, doc,
+       << [op |-> "qtable", h |-> 1, dim |-> 3, props |-> <<PC(3)>>,
+           checks |-> <<[k |-> "tol", at |-> 0, col |-> 4, rel |-> 0, abs |-> Dec(1, -3)]>>,
+           rows |-> <<row(1, c.fr[1]), row(59, c.fr[2])>>],
+          [op |-> "qtable", h |-> 1, dim |-> 3, props |-> <<PC(3)>>, rowlet |-> << <<"a", c.fr[1]>>, <<"b", c.fr[2]>> >>,
+           checks |-> <<[k |-> "between", at |-> 0, col |-> 4, col2 |-> 5, slack |-> Dec(1, -9)]>>,
+           rows |-> [i \in 1..5 |-> <<(500 - 10 * i) * Km, 500 * Km, HM - 100 * Km, 100 * Km>>]] >>)
+
 VARIABLE case
-Cases ==    ({"linear"} \X LinearCase) \cup ({"linear-varying"} \X LinVarCase) \cup ({"uniform"} \X UniformCase) \cup ({"adiabatic"} \X AdCase) \cup ({"chapman"} \X ChapCase)
+Cases ==    ({"smooth"} \X SmoothCase) \cup    ({"linear"} \X LinearCase) \cup ({"linear-varying"} \X LinVarCase) \cup ({"uniform"} \X UniformCase) \cup ({"adiabatic"} \X AdCase) \cup ({"chapman"} \X ChapCase)
        \cup ({"cooling"} \X CoolCase) \cup ({"gaussian"} \X GaussCase) \cup ({"line-linear"} \X LineLinCase)
 Init == case \in Cases
 Next == UNCHANGED case
 Behaviour == CASE case[1] = "linear" -> LinearB(case[2]) [] case[1] = "linear-varying" -> LinVarB(case[2]) [] case[1] = "uniform" -> UniformB(case[2]) [] case[1] = "adiabatic" -> AdB(case[2])
                [] case[1] = "chapman" -> ChapB(case[2]) [] case[1] = "cooling" -> CoolB(case[2]) [] case[1] = "gaussian" -> GaussB(case[2])
-               [] case[1] = "line-linear" -> LineLinB(case[2])
+               [] case[1] = "line-linear" -> LineLinB(case[2]) [] case[1] = "smooth" -> SmoothB(case[2])
 Emit == PrintT(<<"B", ToJson(Behaviour)>>)
 =============================================================================
